@@ -1,6 +1,7 @@
 ------------------------------ MODULE MCSession ------------------------------
 EXTENDS Session
-\* types 1 and 2 print the same name
+\* types 1 and 2 print the same name; type 5 stands for a class of several hundred unrelated types
+\* (the harness scales it: one PretouchMany call with more types than any internal batching bound)
 NameDef(t) == IF t \in {1, 2} THEN "T" ELSE ToString(t)
-BatchesDef == {{1, 2}, {1, 2, 3}, {3, 4}, {1}, {2, 4}}
+BatchesDef == {{1, 2}, {1, 2, 3}, {3, 4}, {1}, {2, 4}, {5}, {1, 2, 5}}
 =============================================================================
